@@ -141,7 +141,7 @@ def execute(case, ctx):
     log = [["session", driver, fmt_tag(fmt), res.get("status"), res.get("rc"), res.get("categories"), sorted(map(str, res.get("rec", [])))]]
     out = {"violations": [], "discards": {}, "abstract": [], "log": log}
     if not sim.session_completed(driver, res):
-        out["discards"]["session-did-not-complete(C18)"] = 1
+        out["violations"].append(sim.completion_violation(driver, res, f"flags={case.get('flags', 'create')} fmt={fmt_tag(fmt)}"))
         return out
     sidx = W.site_index(prog)
     events_by_site = {}
